@@ -77,7 +77,7 @@ struct work_obj { int exists, state, inst, submitter, runs, dones; struct iv_wor
 struct thr_obj { int exists, mode, spawned; };
 struct worker { int used, alive, inst, vt, deadn; struct work_pool_thread *thr; void (*h_kick)(void *); void (*h_idle)(void *); };
 struct deadrec { int used, alive, vt, creator; struct iv_event *ev; void *cookie; void (*h_dead)(void *);
-		 void (*start)(void *); void *arg; int joined; };
+		 void (*start)(void *); void *arg; int joined, seen; };
 
 static struct pool_obj P[MT_MAXO];
 static struct pool_inst PI[MAXINST];
@@ -270,6 +270,9 @@ void __wrap_iv_event_unregister(struct iv_event *ev)
 		if (d != NULL) {
 			iv_event_unregister(ev);
 			d->alive = 0;
+			d->seen = 1;
+			d->ev = NULL;		/* keep no pointer into the record: LeakSanitizer must see it if nobody frees it */
+			d->cookie = NULL;
 			return;
 		}
 	}
@@ -597,7 +600,7 @@ static void w_at_end(void)
 	for (i = 0; i < npi; i++)
 		printf("T%d POOL %s freed=%d\n", mt_me(), PI[i].name, !PI[i].alive);
 	for (i = 0; i < ndr; i++)
-		if (DR[i].used && DR[i].ev != NULL)
+		if (DR[i].used && (DR[i].ev != NULL || DR[i].seen))
 			printf("T%d THR dead:%d thread=T%d creator=T%d joined=%d registered=%d\n", mt_me(), i, DR[i].vt, DR[i].creator, DR[i].joined, DR[i].alive);
 }
 
